@@ -9,7 +9,7 @@ import (
 
 // HashInput is the harness's HashInputProvider for TV keys.
 func HashInput(v atree.Value, buf []byte) ([]byte, error) {
-	tv, ok := v.(TV)
+	tv, ok := AsTV(v)
 	if !ok {
 		return nil, fmt.Errorf("hash input: not a TV: %T", v)
 	}
@@ -21,13 +21,15 @@ func HashInput(v atree.Value, buf []byte) ([]byte, error) {
 
 // CompareKey is the harness's ValueComparator: equality of (size, payload).
 func CompareKey(st atree.SlabStorage, v atree.Value, s atree.Storable) (bool, error) {
-	tv, ok := v.(TV)
+	tv, ok := AsTV(v)
 	if !ok {
 		return false, fmt.Errorf("compare: key is %T", v)
 	}
 	switch x := s.(type) {
 	case TV:
 		return x == tv, nil
+	case NK:
+		return x.TV() == tv, nil
 	case atree.SlabIDStorable:
 		sv, err := x.StoredValue(st)
 		if err != nil {
@@ -54,7 +56,7 @@ var _ atree.DigesterBuilder = &TableDigesterBuilder{}
 func (b *TableDigesterBuilder) SetSeed(uint64, uint64) {}
 
 func (b *TableDigesterBuilder) Digest(hip atree.HashInputProvider, v atree.Value) (atree.Digester, error) {
-	tv, ok := v.(TV)
+	tv, ok := AsTV(v)
 	if !ok {
 		return nil, fmt.Errorf("digest: key is %T", v)
 	}
@@ -108,7 +110,7 @@ func Digests(b atree.DigesterBuilder, key TV) ([]uint64, error) {
 // default digester this produces genuine collisions on every level between keys of one bucket, and
 // exercises the library's pooled digesters beyond level 0.
 func HashInputBucket(v atree.Value, buf []byte) ([]byte, error) {
-	tv, ok := v.(TV)
+	tv, ok := AsTV(v)
 	if !ok {
 		return nil, fmt.Errorf("hash input: not a TV: %T", v)
 	}
@@ -137,7 +139,7 @@ func DigestsWith(b atree.DigesterBuilder, hip atree.HashInputProvider, key TV) (
 // digester's own scratch space, so a digester handed back to its pool too early, or reused without
 // being reset, corrupts digests that are computed lazily (levels 1..3).
 func HashInputScratch(v atree.Value, buf []byte) ([]byte, error) {
-	tv, ok := v.(TV)
+	tv, ok := AsTV(v)
 	if !ok {
 		return nil, fmt.Errorf("hash input: not a TV: %T", v)
 	}
@@ -152,7 +154,7 @@ func HashInputScratch(v atree.Value, buf []byte) ([]byte, error) {
 // HashInputBucketScratch: HashInputBucket's message (non-injective: genuine collisions on every
 // level), written into the supplied scratch buffer and returned as a sub-slice of it.
 func HashInputBucketScratch(v atree.Value, buf []byte) ([]byte, error) {
-	tv, ok := v.(TV)
+	tv, ok := AsTV(v)
 	if !ok {
 		return nil, fmt.Errorf("hash input: not a TV: %T", v)
 	}
